@@ -205,6 +205,13 @@ def session_tie_histories(ctx, viol, dist):
         # wide: long lists per (context, level); rich: lengths at length levels 0..2 and Markov targets up to 4, so the remainder of an
         # interrupted level lies at further lengths / initial-prefix levels than the ones the level started with
         spec = C12.small_ruleset(rng, markov_pos=rng.choice([0, 1, 2]), wide=(i % 2 == 0), rich=(i % 2 == 1))
+        if i == 1:
+            # whatever the seed: one Markov level (target 2) holding two lengths, both at length level 2 - the session resumed inside the
+            # first length has to step on to the second
+            spec = C12.small_ruleset(rng, markov_pos=0)
+            spec['omen'] = {'ngram': 2, 'alphabet': ['a', 'b'], 'ip': [[0, 'a'], [0, 'b']], 'ep': [[0, 'a'], [0, 'b']],
+                            'cp': [[0, 'aa'], [0, 'ab'], [0, 'ba'], [0, 'bb']], 'ln': [10, 0, 2, 2], 'keyspace': [[l, 1] for l in range(0, 19)]}
+            spec['omen_prob'] = [['2', '0.5'], ['0', '0.3']]
         d = common.write_ruleset(os.path.join(root, f"c08omen{i % 2}"), spec)
         pcfg = common.load_grammar(d)
         units = ss.units_of(pcfg)
